@@ -166,6 +166,14 @@ func LoadDictionary(repo string) (words, nums int) {
 	return len(dictWords), len(dictNums)
 }
 
+// PkgNums returns the number literals (with their derived neighbours and powers) of one package; "" = whole tree.
+func PkgNums(pkg string) []string {
+	if pkg == "" {
+		return dictNums
+	}
+	return ecoNums[pkg]
+}
+
 // PkgSymbols returns the punctuation-only string / char literals (1..3 characters) of one package.
 func PkgSymbols(pkg string) []string { return ecoSyms[pkg] }
 
